@@ -82,7 +82,12 @@ func FindMajority(quorum, threshold uint, set ...uint) int {
 		return set[i] > set[j]
 	})
 
-	if quorum-sum+set[0] < th {
+	var missing uint
+	if sum < quorum {
+		missing = quorum - sum
+	}
+
+	if missing+set[0] < th {
 		return -2
 	}
 
